@@ -42,7 +42,7 @@ ASSUMPTIONS = [
     "numerical-fallback force rows whose stencil crosses a "
     "boundary are not compared (counted)",
 ]
-REQUIRED = {"label:longer_than_field:reject": 4, "label:eight_characters": 3, "special:int_plateau": 4, "special:root_on_grid": 8, "special:decay_tail": 8, "special:growth": 4, "special:break_on_row": 8, "special:other_units": 10, "reject:four_rows": 2, "no_potentials:reject": 3, "accept": 60, "reject": 40, "reject:nr%4=2:api_class": 5, "reject:nr%4=2:writePotentials": 5,
+REQUIRED = {"special:large_file": 2, "label:longer_than_field:reject": 4, "label:eight_characters": 3, "special:int_plateau": 4, "special:root_on_grid": 8, "special:decay_tail": 8, "special:growth": 4, "special:break_on_row": 8, "special:other_units": 10, "reject:four_rows": 2, "no_potentials:reject": 3, "accept": 60, "reject": 40, "reject:nr%4=2:api_class": 5, "reject:nr%4=2:writePotentials": 5,
             "reject:nr%4=2:potable": 10, "route:potable:DL_POLY": 10, "route:potable:DLPOLY": 10,
             "route:api_class": 15, "route:writePotentials": 15}
 FMT = ("e", 7)
@@ -50,8 +50,8 @@ FMT = ("e", 7)
 
 @st.composite
 def _case(draw, nr_max, accept, route=None, rem=None):
-    route = route or draw(st.sampled_from(["api_class", "writePotentials", "potable:DL_POLY", "potable:DLPOLY"]))
-    m = draw(gen.pair_model(4, 2, pycallables=not route.startswith("potable")))
+    route = route or draw(st.sampled_from(["api_class", "writePotentials", "potable:DL_POLY", "potable:DLPOLY", "main"]))
+    m = draw(gen.pair_model(4, 2, pycallables=not route.startswith(("potable", "main"))))
     cutoff, _ = draw(gen.grid_rc(10))
     if accept:
         nr = 4 * draw(st.one_of(st.integers(2, 6), st.integers(2, nr_max // 4)))
@@ -68,6 +68,17 @@ def _case(draw, nr_max, accept, route=None, rem=None):
             m["pair"] = []
     m.update({"cutoff": cutoff, "nr": nr, "route": route,
               "container": draw(st.sampled_from(["list", "list", "tuple", "iterator", "generator"]))})
+    return m
+
+
+@st.composite
+def _large_case(draw):
+    """files of a few hundred kB (several blocks of thousands of rows): what is buffered, flushed or streamed on
+    the way to the file shows only from some size on"""
+    route = draw(st.sampled_from(["api_class", "writePotentials", "potable:DL_POLY", "main"]))
+    m = draw(gen.pair_model(4, 0, max_tables=0, pycallables=False, min_pots=2, max_customs=0))
+    m.update({"cutoff": draw(st.sampled_from([6.5, 10.0, 12.0])), "nr": draw(st.sampled_from([2200, 2400, 3000, 4004])), "route": route,
+              "container": draw(st.sampled_from(["list", "tuple"])), "special": "large_file"})
     return m
 
 
@@ -133,9 +144,10 @@ def strata(tier):
     out = [("accept", _case(mx, True), 12), ("root_on_grid", _special("root_on_grid"), 2),
            ("decay_tail", _special("decay_tail"), 2), ("growth", _special("growth"), 1), ("int_plateau", _special("int_plateau"), 1)]
     out.append(("break_on_row", _node_case(), 2))
+    out.append(("large_file", _large_case(), 0.5))
     out += [("label:eight_characters", _label_case(mx, False), 0.7), ("reject:label_longer_than_field", _label_case(mx, True), 1)]
     out += [("other_units:" + f, _units(f), 0.25) for f in gen.UNIT_FORMS if f not in ("zero", "constant")]
-    for route in ("api_class", "writePotentials", "potable:DL_POLY", "potable:DLPOLY"):
+    for route in ("api_class", "writePotentials", "potable:DL_POLY", "potable:DLPOLY", "main"):
         out.append(("reject:even:" + route, _case(mx, False, route, 2), 1))
         out.append(("reject:odd:" + route, _case(mx, False, route), 1))
         out.append(("reject:four:" + route, _case(mx, False, route, "four"), 0.3))
@@ -232,7 +244,7 @@ def check_case(case):
         cls.append("callables_return_ints")
     if not accept:
         cls.append("reject:nr%%4=%d:%s" % (nr % 4, "potable" if route.startswith("potable") else route))
-    rk = "potable" if route.startswith("potable") or route == "cli" else "api"
+    rk = "potable" if route.startswith("potable") or route in ("cli", "main") else "api"
     target = route.split(":")[1] if ":" in route else "DL_POLY"
     ctx = _text(case, target)
     if accept:
@@ -247,8 +259,9 @@ def check_case(case):
     v = []
     out = None
     try:
-        if route == "cli":
-            res = libroute.run_potable([], ctx)
+        if route in ("cli", "main"):
+            # 'main': potable's own main() in this process, writing to a path that does not exist beforehand
+            res = libroute.run_potable([], ctx) if route == "cli" else libroute.run_potable_main([], ctx, preexisting=False)
             if accept:
                 if res["rc"] != 0 or res["out"] is None:
                     return {"v": [("cli:failed", "rc=%r %s\n%s" % (res["rc"], res["stderr"][-500:], ctx))], "cls": cls, "nt": False}
@@ -256,8 +269,9 @@ def check_case(case):
             else:
                 if res["rc"] != 2 or "configuration error" not in res["stderr"]:
                     v.append(("cli:reject", "nr=%d: exit status %r, stderr %r\n%s" % (nr, res["rc"], res["stderr"][-400:], ctx)))
-                if res["out"]:
-                    v.append(("cli:reject_wrote_file", "nr=%d: %d bytes written\n%s" % (nr, len(res["out"]), ctx)))
+                if res["out"] is not None:
+                    # "rejected instead of producing a file": the output path did not exist before the run
+                    v.append(("cli:reject_wrote_file", "nr=%d: a file of %d bytes exists at the output path after the refusal\n%s" % (nr, len(res["out"]), ctx)))
                 return {"v": v, "cls": cls, "nt": True}
         elif rk == "potable":
             try:
